@@ -148,12 +148,9 @@ func c06Exec(c c06Case, limit int64) (c06Obs, *Verdict) {
 		}
 		cv.cmd("DATA")
 		// (in lines well under any line length limit)
-		for n > 62 {
+		for n >= 64 {
 			cv.raw(append(bytes.Repeat([]byte("p"), 62), '\r', '\n'))
 			n -= 64
-		}
-		if n < 0 {
-			n = 0
 		}
 		cv.raw(bytes.Repeat([]byte("p"), n))
 		cv.raw([]byte("\r\n.\r\n"))
